@@ -178,6 +178,7 @@ func runCheck(prop string, thorough bool, repo string, writeExpected bool) int {
 	generated := map[string]bool{}
 	var outs []oblOut
 	var failed []map[string]any
+	failedObl := map[string]*vc.Obligation{}
 	var knownHit []string
 	nObl, nDis := 0, 0
 	nVac, nVacOK := 0, 0
@@ -223,6 +224,7 @@ func runCheck(prop string, thorough bool, repo string, writeExpected bool) int {
 			if o.Res.Verdict == "sat" {
 				cls = "refuted"
 			}
+			failedObl[o.Name] = o
 			failed = append(failed, map[string]any{"obligation": o.Name, "classification": cls, "verdict": o.Res.Verdict, "solver": o.Res.Backend, "contract": o.Text, "contract_line": relLine(o.Line), "model": o.Res.Model, "solver_output": o.Res.Output, "query_file": saveQuery(prop, o)})
 		}
 	}
@@ -267,7 +269,8 @@ func runCheck(prop string, thorough bool, repo string, writeExpected bool) int {
 		// try to replay refuted obligations on the real code
 		for _, f := range failed {
 			if f["classification"] == "refuted" {
-				if r := tryReplay(prop, f, repo); r != nil {
+				name, _ := f["obligation"].(string)
+				if r := tryReplay(prop, f, repo, failedObl[name]); r != nil {
 					f["replay"] = r
 					if ok, _ := r["reproduced"].(bool); ok {
 						f["classification"] = "refuted+replayed"
